@@ -57,6 +57,20 @@ def sig_c07(v):
 _TOKENS = [b"..", b".", b"a", b"x", b"/", b"", b"b.txt", b"\x8a", b"\x00", b"abs", b"../", b"/..", b"a/", b"./", b"p", b".incomplete", b" "]
 
 
+def _is_mix_path(raw):
+    """a path field of 2..3 items, each one of a, .., ../.., ."""
+    if not isinstance(raw, list) or len(raw) < 2 or raw == [-1]:
+        return False
+    n, pos, items = raw[0] * 256 + raw[1], 2, []
+    for _ in range(n):
+        if pos + 3 > len(raw):
+            return False
+        ln = raw[pos + 2]
+        items.append(bytes(raw[pos + 3:pos + 3 + ln]))
+        pos += 3 + ln
+    return len(items) >= 2 and all(i in (b"a", b"..", b"../..", b".") for i in items)
+
+
 def _random_requests(seed, n):
     """Seeded random requests (thorough tier): components glued from 1..3 tokens of a hostile palette, in random
     positions of random request kinds.  They are judged like the TLC-generated ones (Trace_Files applies Files!Do)."""
@@ -157,6 +171,8 @@ def run_c07(ctx):
                 top = q["item"]["count"] <= 1 or h < 3
             else:
                 top = q["kind"] in ("rename", "seq") or (q["kind"] != "acct" and q.get("path") == [-1]) or h < 4
+                if q["kind"] == "newfolder" and _is_mix_path(q.get("path")):
+                    top = True                   # (multi-item paths mixing a sub-folder, "..", "../.." and ".": all kept)
                 if q.get("sp", 0) != 0 and q["kind"] in ("newfolder", "upload", "list", "alias", "upfolder", "dlfolder"):
                     top = h < 3                  # (non-canonical root spelling: the kinds with side files are all kept)
                 if q["kind"] == "acct":          # (account creation hashes a password at full cost: the slowest requests)
